@@ -73,14 +73,28 @@ func genC10(g *Gen) {
 	for _, col := range append(append([]string{}, s.names...), "nosuch") {
 		for _, cmp := range allCmps {
 			for vi, v := range vals {
-				if !g.thorough() && g.rng.Intn(4) != 0 {
+				if !g.thorough() && g.rng.Intn(2) != 0 {
 					continue
 				}
 				_ = vi
 				g.begin("filter product")
 				f := base()
 				cl := Clause{K: "leaf", Col: toBS(col), CmpK: "str", Cmp: cmp, Arg: v, Inv: g.rng.Intn(3) == 0}
-				switch g.rng.Intn(5) {
+				tt := Clause{K: "leaf", Col: toBS("A"), CmpK: "str", Cmp: ">", Arg: &Val{T: "int", I: -100000}}
+				ff := Clause{K: "leaf", Col: toBS("A"), CmpK: "str", Cmp: ">", Arg: &Val{T: "int", I: 100000}}
+				switch g.rng.Intn(12) {
+				case 5: // composite neighbours selecting every row / no row, before and after the clause under test
+					cl = Clause{K: "or", Subs: []Clause{{K: "and", Subs: []Clause{tt}}, cl}}
+				case 6:
+					cl = Clause{K: "or", Subs: []Clause{cl, {K: "not", Subs: []Clause{ff}}}}
+				case 7:
+					cl = Clause{K: "and", Subs: []Clause{{K: "or", Subs: []Clause{ff}}, cl}}
+				case 8:
+					cl = Clause{K: "and", Subs: []Clause{cl, {K: "not", Subs: []Clause{tt}}}}
+				case 9:
+					cl = Clause{K: "or", Subs: []Clause{{K: "not", Subs: []Clause{ff}}, {K: "and", Subs: []Clause{tt, cl}}}}
+				case 10:
+					cl = Clause{K: "or", Subs: []Clause{tt, {K: "not", Subs: []Clause{cl}}, ff}}
 				case 0:
 					cl = Clause{K: "not", Subs: []Clause{cl}}
 				case 1:
@@ -165,14 +179,20 @@ func genC10(g *Gen) {
 			return Step{Op: "FilteredApply", Recv: f, Clause: &Clause{K: "leaf", Col: toBS("nosuch"), CmpK: "str", Cmp: "=", Arg: &Val{T: "int", I: 1}}, Instrs: []Instr{{Fn: FnRef{K: "fn1", Sym: "negI"}, Dst: toBS("Z"), Src1: toBS("A")}}}
 		},
 	}
-	for rep := 0; rep < g.pick(2, 8); rep++ {
+	for rep := 0; rep < g.pick(4, 12); rep++ {
 		for _, b := range bads {
 			g.begin("bad op")
 			f := base()
 			if g.rng.Intn(2) == 0 {
 				f = g.derive(f)
 			}
-			g.do(b(f))
+			st := b(f)
+			if (st.Op == "Apply" || st.Op == "FilteredApply") && len(st.Instrs) == 1 && g.rng.Intn(2) == 0 {
+				// an invalid instruction in the middle: nothing after it may run
+				good := func(d string) Instr { return Instr{Fn: FnRef{K: "fn1", Sym: "negI"}, Dst: toBS(d), Src1: toBS("A")} }
+				st.Instrs = []Instr{good("Y1"), st.Instrs[0], good("Y2"), {Fn: FnRef{K: "fn2", Sym: "PlusI"}, Dst: toBS("Y3"), Src1: toBS("A"), Src2: toBS("B")}}
+			}
+			g.do(st)
 			g.continuation(len(g.x.frames) - 1)
 			g.end()
 		}
